@@ -152,6 +152,13 @@ Theorem C05_header_writer_from_source : forall n op,
   /\ gf_gws_Opcode_isDataFrame (Z.of_N op) = is_data op.
 Proof. exact header_writer_from_source. Qed.
 
+(* ... the first header byte GenerateHeader stores (opcode, +128 for FIN, +64 for a compressed frame, in uint8), regenerated
+   from types.go, is the first byte of the model's header *)
+Theorem C05_header_byte0_from_source : forall server fin compress op len key, op < 256 ->
+  Z.of_N (hd 0 (generate_header server fin compress op len key))
+  = gf_gws_frameHeader_GenerateHeader_b0 server fin compress (Z.of_N op) len.
+Proof. exact gen_header_b0_is. Qed.
+
 (* ... and the gates of genFrame in front of the frame construction (text validation, write limit, the decision to
    compress: flag, data opcode, threshold with >=; masking iff client), as regenerated from writer.go, are the model's *)
 Theorem C05_gates_from_source : forall opcode n limit threshold compress server check_ok,
@@ -189,6 +196,7 @@ Print Assumptions C05_flate_segments.
 Print Assumptions C05_stream_compressed.
 Print Assumptions C05_spec_roundtrip.
 Print Assumptions C05_header_writer_from_source.
+Print Assumptions C05_header_byte0_from_source.
 Print Assumptions C05_gates_from_source.
 Print Assumptions C05_gen_frame_from_source.
 Print Assumptions C05_do_write_from_source.
